@@ -529,6 +529,60 @@ corpus come in the order of the registry (`allobjects`, a dict: insertion order)
 def documentOrder (allobjects : List (Name × Bool)) : List Name :=
   (allobjects.filter (·.2)).map (·.1)
 
+/-! ## 6. the template lookup (`--template-dir`) -/
+
+/-- a template file of a directory: its name, `name.lower()`, HTML or static, its bytes -/
+structure Tpl where
+  name : Name
+  lower : Name
+  html : Bool
+  content : Nat
+  deriving DecidableEq, Repr
+
+/-- an entry of TemplateLookup._templates (a CaseInsensitiveDict: keyed by the lowered name): the name
+the template keeps (the output file name of a static template), its type, its bytes -/
+structure TplEntry where
+  outName : Name
+  html : Bool
+  content : Nat
+  deriving DecidableEq, Repr
+
+/-- association list keyed by lowered name, first binding wins -/
+abbrev Lookup := List (Name × TplEntry)
+
+def Lookup.get (d : Lookup) (k : Name) : Option TplEntry :=
+  match d with
+  | [] => none
+  | (m, e) :: rest => if m = k then some e else Lookup.get rest k
+
+/-- TemplateLookup.add_template (version checks of HTML templates and the directory check left out):
+```
+try: current_template = self._templates[template.name]          # case-insensitive
+except KeyError: self._templates[template.name] = template
+else:
+    template.name = current_template.name                         # the FIRST spelling names the output file
+    if both static or both HTML: self._templates[template.name] = template      # the LAST content wins
+    else: raise OverrideTemplateNotAllowed
+```
+`none` = OverrideTemplateNotAllowed. -/
+def addTemplate (d : Lookup) (t : Tpl) : Option Lookup :=
+  match d.get t.lower with
+  | none => some ((t.lower, ⟨t.name, t.html, t.content⟩) :: d)
+  | some e => if e.html = t.html then some ((t.lower, ⟨e.outName, e.html, t.content⟩) :: d) else none
+
+/-- TemplateLookup.add_templatedir: `for template in Template.fromdir(path): self.add_template(template)`;
+`listing` = the directory's files in the order `path.iterdir()` lists them (NOT sorted by the code). -/
+def addTemplateDir : Lookup → List Tpl → Option Lookup
+  | d, [] => some d
+  | d, t :: rest =>
+    match addTemplate d t with
+    | some d' => addTemplateDir d' rest
+    | none => none
+
+/-- the proposed repair (fixes/C18-template-dir-listing-sorted.diff): walk the directory in name order -/
+def addTemplateDirSorted (d : Lookup) (listing : List Tpl) : Option Lookup :=
+  addTemplateDir d (sortedWith lexLe (·.name) listing)
+
 /-- the executable property predicate for part 1: a site function gives the same answer on two
 enumerations -/
 def sameOn {α β : Type} [BEq β] (f : List α → β) (e₁ e₂ : List α) : Bool := f e₁ == f e₂
